@@ -390,7 +390,12 @@ def deserialize_single_field(  # pylint: disable=too-many-branches
             field, source_val, name, camel_case_convert=camel_case_convert
         )
     elif isinstance(field, SerializableField):
-        value = field.deserialize(source_val)
+        try:
+            value = field.deserialize(source_val)
+        except (ValueError, TypeError) as e:
+            if str(e).startswith(f"{name}"):
+                raise
+            raise e.__class__(f"{name}: {str(e)}") from e
     elif isinstance(field, Anything) or field is None:
         value = source_val
     elif (
@@ -496,6 +501,8 @@ def construct_fields_map(
                             ignore_none=ignore_none,
                         )
                     except (TypeError, ValueError) as ex:
+                        if Structure.failing_fast():
+                            raise
                         errors.append(ex)
 
     raise_errs_if_needed(cls, errors)
